@@ -99,6 +99,7 @@ func Run(s *simrt.Sim, a *harness.Args, r *harness.Result) {
 			w.cfg[k] = c
 		}
 		rates = false
+		_ = rates
 	}
 	s.PreemptBudget = []int{0, 1, 2, 3, -1}[s.T.Choose("knob", 5)]
 	s.PreemptNum, s.PreemptDen = 1, []int{2, 4, 8}[s.T.Choose("knob", 3)]
@@ -182,7 +183,7 @@ func Run(s *simrt.Sim, a *harness.Args, r *harness.Result) {
 		s.Violate("C11/hang", "only %d of %d deliveries finished (%v); parked=%v", w.done, total, res, s.ParkedKeys())
 	}
 	// after quiescence the full N is acquirable again in every scope/key used
-	if len(s.Violations()) == 0 && !rates {
+	if len(s.Violations()) == 0 {
 		checked := false
 		// the probe asks for *immediate* acquisition: no time may pass
 		s.TimeNum = 0
@@ -197,7 +198,7 @@ func Run(s *simrt.Sim, a *harness.Args, r *harness.Result) {
 			w.postCheck(ds)
 			checked = true
 		})
-		s.Run(4*time.Minute, func() bool { return checked })
+		s.Run(10*time.Minute, func() bool { return checked })
 		for _, p := range s.Panics() {
 			if p.Func != "HARNESS" {
 				s.Violate("C11/panic/"+p.Func, "task %s panicked: %s", p.Task, p.Value)
@@ -261,6 +262,21 @@ func (w *world) deliver(name string, d delivery) {
 	s.Logf("%s released", name)
 }
 
+// refill waits until every configured rate limiter has refilled, so that only
+// concurrency limits can make the next probe acquisition wait.
+func (w *world) refill() {
+	var max time.Duration
+	for _, c := range w.cfg {
+		if c.burst > 0 && c.per > max {
+			max = c.per
+		}
+	}
+	if max > 0 {
+		time.Sleep(max + time.Second)
+		simrt.Yield("post:refilled")
+	}
+}
+
 // postCheck: with nobody holding anything, exactly the configured number of
 // permits can be taken per scope key before a further take times out.
 func (w *world) postCheck(ds []delivery) {
@@ -286,6 +302,7 @@ func (w *world) postCheck(ds []delivery) {
 		}
 		okN := 0
 		for i := 0; i < capacity+1; i++ {
+			w.refill()
 			if err := w.g.TakeMsg(ctx, d.ip, d.src); err != nil {
 				s.Logf("post: TakeMsg #%d ip=%s src=%s failed: %v", i+1, d.ip, d.src, err)
 				break
@@ -315,6 +332,7 @@ func (w *world) postCheck(ds []delivery) {
 			}
 			okN := 0
 			for i := 0; i < n+1; i++ {
+				w.refill()
 				if err := w.g.TakeDest(ctx, dst); err != nil {
 					break
 				}
